@@ -12,6 +12,7 @@ import (
 	"github.com/elementsproject/peerswap/onchain"
 	"github.com/elementsproject/peerswap/swap"
 	"github.com/elementsproject/peerswap/txwatcher"
+	"github.com/elementsproject/peerswap/verifsim/rt"
 	"github.com/vulpemventures/go-elements/elementsutil"
 	"github.com/vulpemventures/go-elements/transaction"
 )
@@ -130,6 +131,7 @@ func (n *Node) bootWatchers(ctx context.Context) {
 		w.Observe(&Obs{Node: n.ID, Kind: "boot.fail", Str: "bitcoin StartWatchingTxs: " + err.Error()})
 		return
 	}
+	rt.ReleaseLineage()
 	n.Up = true
 	n.Recovered = true
 	w.Observe(&Obs{Node: n.ID, Inc: n.inc, Kind: "boot.done"})
